@@ -83,6 +83,16 @@ pub fn unfill(text: &str) -> (String, Options<'_>) {
                 options.subsequent_indent = prefix;
             }
         }
+        #[cfg(feature = "verif-hooks")]
+        crate::verif::emit(
+            "unfill.loop1",
+            &[
+                crate::verif::n(idx),
+                crate::verif::n(options.width),
+                crate::verif::n(options.initial_indent.len()),
+                crate::verif::n(options.subsequent_indent.len()),
+            ],
+        );
     }
 
     #[cfg(feature = "verif-hooks")]
@@ -99,6 +109,19 @@ pub fn unfill(text: &str) -> (String, Options<'_>) {
     let mut detected_line_ending = None;
 
     for (idx, (line, ending)) in NonEmptyLines(text).enumerate() {
+        #[cfg(feature = "verif-hooks")]
+        crate::verif::emit(
+            "unfill.loop2",
+            &[
+                crate::verif::n(idx),
+                crate::verif::n(line.len()),
+                match ending {
+                    None => 0,
+                    Some(LineEnding::LF) => 1,
+                    Some(LineEnding::CRLF) => 2,
+                },
+            ],
+        );
         if idx == 0 {
             unfilled.push_str(&line[options.initial_indent.len()..]);
         } else {
